@@ -180,6 +180,8 @@ def run(ctx):
         "traces_validated_against_impl": steps,
         "generator_classes": dict(sorted(gen.items())), "outcomes": outcomes, "check_vs_deliver": checks,
         "evm_view_reads": views, "contracts_deployed": contracts,
+        "creations_at_a_prefunded_address": sum(rep["PrefundedCreate"] for job, rep, st in runs),
+        "creations_at_a_prefunded_address_constructor_failed": sum(rep["PrefundedCreateFailed"] for job, rep, st in runs),
         "executed_leaving_sender_at_exactly_zero": sum(rep["SenderZero"] for job, rep, st in runs),
         "zero_value_transfers_to_drained_accounts_with_nonce": sum(rep["ZeroToDrained"] for job, rep, st in runs),
         "replays_of_a_drained_accounts_old_transactions": sum(rep["Classes"].get(k, 0) for job, rep, st in runs for k in rep["Classes"] if "drain-replay" in k),
